@@ -12,8 +12,8 @@ RULE = ("one case = (method, dtype, span sign pattern, initial-dt class and sign
         "non-trivial = >=3 rows recorded by a call that returned; distinct by (method,dtype,span,dt class,history)")
 ASSUMPTIONS = ["dt is at least 64 ulp of the largest time in the span (otherwise time cannot advance in that precision)",
                "a run exceeding its logical step budget (20x the expected step count) is a violation of 'ends at the target' (bounded progress)"]
-FLOORS = {"quick": {"calls_checked": 150, "backward_calls": 40, "mixed_sign_calls": 30, "dt_gt_span_calls": 20, "buffer_growth_runs": 2, "reversal_calls": 5, "closing_rejection_calls": 8},
-          "thorough": {"calls_checked": 1500, "backward_calls": 400, "mixed_sign_calls": 300, "dt_gt_span_calls": 120, "buffer_growth_runs": 8, "reversal_calls": 50, "closing_rejection_calls": 8}}
+FLOORS = {"quick": {"calls_checked": 150, "backward_calls": 40, "mixed_sign_calls": 30, "dt_gt_span_calls": 20, "buffer_growth_runs": 2, "reversal_calls": 5, "closing_rejection_calls": 8, "calls_after_tf_change": 15, "noop_calls": 3},
+          "thorough": {"calls_checked": 1500, "backward_calls": 400, "mixed_sign_calls": 300, "dt_gt_span_calls": 120, "buffer_growth_runs": 8, "reversal_calls": 50, "closing_rejection_calls": 8, "calls_after_tf_change": 150, "noop_calls": 30}}
 SPANS = [(0.0, 2.0), (-5.0, 1.0), (-10.0, -5.0), (10.0, 5.0), (1.0, -5.0), (3.0, -3.0), (0.0, -2.0), (-2.0, 0.0),
          (1e6, 1e6 + 1.0), (-1e6, -1e6 - 1.0), (-0.5, 0.25), (7.0, 7.5)]
 QUICK_METHODS = ["RK45CKSolver", "DOPRI45", "RK4Solver", "EulerSolver", "HeunEulerSolver", "RK8713MSolver", "ABAs5o6HSolver",
@@ -26,7 +26,7 @@ def gen_cases(tier, seed):
     rng = rng_for(301, seed)
     names = QUICK_METHODS if tier == "quick" else list(M)
     cases = []
-    hist_all = ["single", "split2", "split3", "reverse"]
+    hist_all = ["single", "split2", "split3", "reverse", "retarget_extend", "retarget_back", "retarget_twice"]
     for name in names:
         info = M[name]
         for si, span in enumerate(SPANS):
@@ -160,9 +160,31 @@ def run_case(spec):
         targets = [t0 + 0.25 * (tf - t0), t0 + 0.5 * (tf - t0), tf]
     elif hist == "reverse":
         targets = [None, t0 + 0.5 * (tf - t0)]
-    for ci, tgt in enumerate(targets):
-        tgt_eff = tf if tgt is None else tgt
+    elif hist == "retarget_extend":     # the final time is moved through its setter after a completed run; integrate() then goes to the new one
+        targets = [None, ("tf", tf + 0.4 * (tf - t0)), None]
+    elif hist == "retarget_back":
+        targets = [None, ("tf", t0 + 0.6 * (tf - t0)), None]
+    elif hist == "retarget_twice":
+        targets = [t0 + 0.3 * (tf - t0), ("tf", t0 + 0.7 * (tf - t0)), None, None, ("tf", tf + 0.2 * (tf - t0)), None]
+    tf_now = tf
+    ci = -1
+    for tgt in targets:
+        if isinstance(tgt, tuple):
+            system.tf = tgt[1]
+            tf_now = tgt[1]
+            rec.bump("tf_setter_uses")
+            continue
+        ci += 1
+        tgt_eff = tf_now if tgt is None else tgt
         here = float(system.t[-1])
+        if abs(tgt_eff - here) <= 64 * eps * max(1.0, abs(here)):
+            # already at the target (e.g. integrate() repeated): the call must change nothing
+            n_before = len(system)
+            seg = sysrun.call_integrate(system, t=tgt, events=events, max_steps=budget)
+            rec.bump("noop_calls")
+            if seg["raised"] is not None or len(system) != n_before:
+                rec.violate("noop", "call_at_the_target_changed_the_record", dict(feats, call=ci), rows=[n_before, len(system)], raised=str(seg["raised"]))
+            continue
         seg = sysrun.call_integrate(system, t=tgt, events=events, max_steps=budget)
         dd = 1 if tgt_eff > here else -1
         f2 = dict(feats, call=ci, call_direction=dd)
@@ -187,6 +209,8 @@ def run_case(spec):
             rec.bump("dt_gt_span_calls")
         if ci > 0 and dd != d:
             rec.bump("reversal_calls")
+        if tgt is None and tf_now != tf:
+            rec.bump("calls_after_tf_change")
         if len(system) > 5001:
             rec.bump("buffer_growth_runs")
         step_tol = 0.0
